@@ -187,6 +187,30 @@ DumpF == IF NStruct = 5 /\ (tags \cap {"keysplit", "boundary0", "boundary1", "bo
                               <<[tags |-> tags, ops |-> ops]>>)
          ELSE TRUE
 GConstraintF == GBound /\ DumpF
+\* ---- a second scenario family: four level-0 files, so that the AUTOMATIC level-0 compaction becomes due ----
+\*   two flushes that settle below level 0, then four small flushes that each overlap level 1 (and therefore stay in level 0).
+\*   The behaviour ends there: the real engine then picks by compact pointer, closes the level-0 input set, may move a single
+\*   non-overlapping file trivially, and the structure layer checks what it did.
+L0Disjoint(f) == \A g \in lv[0] \ {f} : ~UOverlap(g, Smallest(f).k, Largest(f).k)
+\* the file the size compaction picks first (empty compact pointer: the level-0 file with the smallest key) overlaps no other
+\* level-0 file but does overlap level 1: a single-input compaction that must NOT be a trivial move
+AutoFirstSingle == LET f0 == CHOOSE f \in lv[0] : \A g \in lv[0] : IKLeq(Smallest(f), Smallest(g))
+                       start0 == Ov0(lv, Smallest(f0).k, Largest(f0).k, TRUE, TRUE)
+                       su == Setup(lv, 0, start0)
+                   IN su.in0 = {f0} /\ \E g \in su.in1 : ~(IKLess(Largest(f0), Smallest(g)) \/ IKLess(Largest(g), Smallest(f0)))   \* a real (internal-key) overlap
+GNextA == /\ Cardinality(lv[0]) < 4
+          /\ \/ NStruct \in 0..1 /\ MemN < 3 /\ \E k \in Keys : GPut(k)
+             \/ NStruct \in 0..1 /\ MemN >= 2 /\ GFlush
+             \/ NStruct \in 2..6 /\ MemN < 2 /\ \E k \in Keys : (GPut(k) \/ GDel(k))
+             \/ NStruct \in 2..6 /\ MemN >= 1 /\ GFlush
+GSpecA == GInit /\ [][GNextA]_gvars
+DumpA == IF Cardinality(lv[0]) >= 4
+         THEN ndJsonSerialize(OutDir \o "/a" \o ToString(TLCGet("stats").traces) \o "_" \o ToString(Cardinality(tags)) \o ".ndjson",
+                              <<[tags |-> tags \cup {"auto0"} \cup (IF \E f \in lv[0] : L0Disjoint(f) THEN {"auto0single"} ELSE {})
+                                                 \cup (IF lv[1] # {} THEN {"auto0l1"} ELSE {})
+                                                 \cup (IF AutoFirstSingle THEN {"auto0first"} ELSE {}), ops |-> ops]>>)
+         ELSE TRUE
+GConstraintA == Cardinality(lv[0]) <= 4 /\ DumpA
 \* ---- targeted generation: breadth-first search for the SHORTEST behaviours that reach a rare situation ----
 \* (run with VIEW GView so that the operation history does not split states, and with -continue to collect several)
 CONSTANT Target
